@@ -7,6 +7,7 @@ package search
 import (
 	"context"
 	"fmt"
+	"os"
 	"sort"
 	"strings"
 	"testing"
@@ -64,6 +65,7 @@ func TestVerifC18(t *testing.T) {
 	perWorld := 12
 	var w *vfsWorld
 	var srch zoekt.Streamer
+	dir, searcherKind := "", ""
 	nw := 0
 	branchNames := []string{"HEAD", "HEAD", "main", "dev", ""}
 	for i := 0; i < n; i++ {
@@ -73,7 +75,18 @@ func TestVerifC18(t *testing.T) {
 				srch.Close()
 			}
 			w = vfsGenWorld(t, r, vfsGenOpts{branchy: true, split: true}, fmt.Sprint("c18w", nw))
-			srch, _ = w.newSearcher()
+			if dir != "" {
+				os.RemoveAll(dir)
+				dir = ""
+			}
+			if nw%3 == 0 {
+				// every third world goes through the real NewDirectorySearcher (shard files + watcher + loader)
+				srch, dir = w.newDirectorySearcher(t, fmt.Sprint("c18w", nw))
+				searcherKind = "directory"
+			} else {
+				srch, _ = w.newSearcher()
+				searcherKind = "in-memory"
+			}
 		}
 		// ---- query: top-level conjunction of set filters, type:repo and content atoms
 		hasTypeRepo := false
@@ -167,7 +180,7 @@ func TestVerifC18(t *testing.T) {
 			}
 			sdesc = append(sdesc, map[string]any{"shard": sh.key, "repos": ps})
 		}
-		replay := map[string]any{"seed": vfSeed(), "case": i, "query": descs, "query_go": q.String(), "shards": sdesc}
+		replay := map[string]any{"seed": vfSeed(), "case": i, "searcher": searcherKind, "query": descs, "query_go": q.String(), "shards": sdesc}
 
 		opts := &zoekt.SearchOptions{}
 		res, err := srch.Search(ctx, q, opts)
@@ -324,7 +337,7 @@ func TestVerifC18(t *testing.T) {
 			olist = cList(lr)
 		}
 		coq := cTuple(cList(shs), cList(terms), cNList(gotL), olist)
-		class := []string{fmt.Sprint("shards=", len(w.shards)), fmt.Sprint("children=", len(children)), fmt.Sprint("files>0=", len(gotL) > 0)}
+		class := []string{"searcher=" + searcherKind, fmt.Sprint("shards=", len(w.shards)), fmt.Sprint("children=", len(children)), fmt.Sprint("files>0=", len(gotL) > 0)}
 		for _, k := range kinds {
 			class = append(class, "kind="+k)
 		}
@@ -333,5 +346,8 @@ func TestVerifC18(t *testing.T) {
 	}
 	if srch != nil {
 		srch.Close()
+	}
+	if dir != "" {
+		os.RemoveAll(dir)
 	}
 }
